@@ -88,6 +88,23 @@ def sameObs (a b : RepoObs) : Bool :=
   let sr := fun (l : List (String × Nat)) => l.mergeSort (fun x y => decide (x.1 ≤ y.1))
   sr a.refs == sr b.refs && s a.commits == s b.commits && s a.tables == s b.tables
 
+/-- destinations that the refspecs of a fetch give two or more DIFFERENT remote refs, with the commits
+    those refs have on the remote -/
+def collidingDsts (specMap : List (String × String × Bool)) (rb : RepoObs) : List (String × List Nat) :=
+  let dsts := (specMap.map (·.2.1)).eraseDups
+  dsts.filterMap (fun d =>
+    let srcs := ((specMap.filter (fun m => m.2.1 == d)).map (·.1)).eraseDups
+    if srcs.length < 2 then none else some (d, srcs.filterMap rb.ref?))
+
+/-- one requested ref update of a push: ref, old and new commit (0 = absent) -/
+def pushRequestsOf (v : Json) : List (String × Nat × Nat) :=
+  match fldD v "pushRequests" (Json.arr #[]) with
+  | .arr a => a.toList.filterMap (fun x =>
+      match (x.getObjValAs? String "ref").toOption, (x.getObjValAs? Nat "old").toOption, (x.getObjValAs? Nat "new").toOption with
+      | some r, some o, some n => some (r, o, n)
+      | _, _, _ => none)
+  | _ => []
+
 def handleC09 (_op : String) (input impl : Json) : Except String Json := do
   if resClass impl == "panic" then return reply Json.null false ["no-panic"]
   if resClass impl != "ok" then return reply Json.null false ["harness-setup-failed"]
@@ -110,6 +127,14 @@ def handleC09 (_op : String) (input impl : Json) : Except String Json := do
     -- push on the remote) points at a commit whose table and blocks are present
     (if moved.all (fun p => !p.1.startsWith "heads/" || after.tables.contains p.2) then [] else ["moved-branch-head-has-its-table"]) ++
     (if before.commits.all after.commits.contains && before.tables.all after.tables.contains then [] else ["nothing-lost"]) ++
+    -- a destination fed by several remote refs ends up, after a successful fetch that created it, with
+    -- the commit of one of them
+    (if c.action == "fetch" && !c.failed then
+       (if (collidingDsts c.specMap c.rb).all (fun (d, vals) => match before.ref? d, after.ref? d with
+           | none, some x => vals.contains x
+           | none, none => vals.isEmpty
+           | _, _ => true) then [] else ["colliding-destination-holds-one-of-its-sources"])
+     else []) ++
     -- an immediately repeated fetch or push transfers nothing and changes nothing
     (match (v.getObjVal? "local2").toOption, (v.getObjVal? "remote2").toOption with
      | some l2j, some r2j =>
@@ -132,7 +157,16 @@ def handleC09 (_op : String) (input impl : Json) : Except String Json := do
        -- the repeat of a SUCCESSFUL fetch / push
        match repoObsOf l2j, repoObsOf r2j with
        | .ok l2, .ok r2 =>
-         (if sameObs l2 c.la && sameObs r2 c.ra then [] else ["repeated-run-changes-nothing"]) ++
+         -- a destination that several different remote refs are mapped onto has no single value it
+         -- could keep: it is compared apart (it must hold one of its sources, before and after)
+         let coll := collidingDsts c.specMap c.rb
+         let isColl := fun (n : String) => coll.any (fun p => p.1 == n)
+         let strip := fun (o : RepoObs) => { o with refs := o.refs.filter (fun p => !isColl p.1) }
+         let collOk := fun (o : RepoObs) => coll.all (fun (d, vals) => match o.ref? d with
+           | some x => vals.contains x
+           | none => true)
+         (if sameObs (strip l2) (strip c.la) && sameObs r2 c.ra && (c.action != "fetch" || (collOk l2 && (coll.all (fun p => (l2.ref? p.1).isSome == (c.la.ref? p.1).isSome))))
+          then [] else ["repeated-run-changes-nothing"]) ++
          (if c.action == "fetch" && (fldD v "repeatPackfiles" (jNat 0)).getNat?.toOption.getD 0 != 0 then ["repeated-fetch-transfers-nothing"] else [])
        | _, _ => []
      | _, _ => [])
@@ -141,7 +175,9 @@ def handleC09 (_op : String) (input impl : Json) : Except String Json := do
   let agree :=
     if c.action == "fetch" then
       -- wanted: every remote head (and tags when they are fetched or point at fetched/existing commits)
-      let heads := (c.rb.refs.filter (fun p => p.1.startsWith "heads/" && (!c.mainOnly || p.1 == "heads/main"))).map (·.2)
+      -- (with explicit mappings: every remote ref some refspec of the command covers)
+      let heads := if c.specMap.isEmpty then (c.rb.refs.filter (fun p => p.1.startsWith "heads/" && (!c.mainOnly || p.1 == "heads/main"))).map (·.2)
+        else (c.specMap.map (·.1)).eraseDups.filterMap c.rb.ref?
       let s := fun (l : List Nat) => l.mergeSort (fun x y => decide (x ≤ y))
       -- tags may add commits only if their target is otherwise present; compare on heads' closure as a lower bound and allow tag targets
       let lower := expectCommits heads
@@ -211,8 +247,12 @@ def handleC10 (_op : String) (input impl : Json) : Except String Json := do
     | .update => after.ref? d.1 == newVal
     | .unchanged => after.ref? d.1 == before.ref? d.1
     | .reject => after.ref? d.1 == before.ref? d.1
-  let agreeFetch := modelLocal.all (fun d =>
-    decisionHolds c.lb c.la (d.1, d.2.2) (c.rb.ref? d.2.1))
+  -- a fetch that FAILED because of an injected fault (the remote could not be listed) has decided
+  -- nothing: it must have left every local ref as it was
+  let faulted := (fldD input "fault" (Json.str "")).getStr?.toOption.getD "" != ""
+  let agreeFetch :=
+    if c.action == "fetch" && c.failed && faulted then (changedRefs c.lb c.la).isEmpty
+    else modelLocal.all (fun d => decisionHolds c.lb c.la (d.1, d.2.2) (c.rb.ref? d.2.1))
   -- a push that the CLI decided to send may still be refused by the remote (denyNonFastForwards): accept both
   let agreePush := modelRemote.all (fun d => match d.2 with
     | .update => c.ra.ref? d.1 == c.lb.ref? "heads/main" || c.ra.ref? d.1 == c.rb.ref? d.1
@@ -251,7 +291,17 @@ def handleC10 (_op : String) (input impl : Json) : Except String Json := do
   -- object had to be transferred)
   let fetchWrites : List String :=
     if c.action == "fetch" && !c.failed && !agreeFetch then ["fetch-writes-every-accepted-ref"] else []
-  let viol := check "local" c.lb c.la ++ check "remote" c.rb c.ra ++ mergeViol ++ fetchWrites ++
+  -- push: what the command ASKED the remote to do (first run). Every requested update of a ref must be
+  -- one the gate accepts against the remote's true value of that ref (an update that must be rejected,
+  -- or that is not needed, is never sent), and it names that true value as the old one.
+  let pushAsks : List String :=
+    if c.action == "push" then
+      (pushRequestsOf (fldD impl "val" Json.null)).flatMap (fun (n, o, x) =>
+        if x == 0 then [] else
+        (if pushDecision (c.rb.ref? n) x (isTag n) c.force isAnc == .update then [] else ["push-asks-only-for-updates-its-gate-accepts"]) ++
+        (if (c.rb.ref? n).getD 0 == o then [] else ["push-request-names-the-true-old-value"]))
+    else []
+  let viol := check "local" c.lb c.la ++ check "remote" c.rb c.ra ++ mergeViol ++ fetchWrites ++ pushAsks ++
     (if rejectedReported then [] else ["rejected-updates-are-reported"])
   return reply (Json.str "decisions") (agreeFetch && agreePush) viol.eraseDups
 
